@@ -502,7 +502,24 @@ impl Retrier {
                     {
                         return Err(Error::permanent(RetryError::Flagged));
                     }
-                    wt_client.dbm.load_appointment(locator).unwrap()
+                    // Only what is still pending for this tower is sent. A locator can be here and not be pending anymore:
+                    // lightningd notified the revocation again while it was being delivered, so it was handed to us twice.
+                    let is_pending = wt_client
+                        .towers
+                        .get(&tower_id)
+                        .map_or(false, |t| t.pending_appointments.contains(&locator));
+                    if is_pending {
+                        wt_client.dbm.load_appointment(locator)
+                    } else {
+                        None
+                    }
+                };
+                let appointment = if let Some(appointment) = appointment {
+                    appointment
+                } else {
+                    log::debug!("{locator} is not pending for {tower_id} (anymore). Skipping it");
+                    self.pending_appointments.lock().unwrap().remove(&locator);
+                    continue;
                 };
 
                 match http::add_appointment(
